@@ -85,6 +85,12 @@ var cfgs = []cfg{
 		return []rlwe.EvaluationKeyParameters{{LevelQ: ip(1), LevelP: ip(0), BaseTwoDecomposition: ip(0)}}
 	}},
 	{"two-P", bgv.ParametersLiteral{LogN: 9, LogQ: []int{45, 40, 40, 40}, LogP: []int{45, 45}, PlaintextModulus: 97}, func(p rlwe.Parameters) []rlwe.EvaluationKeyParameters { return nil }},
+	{"two-P-lower-levelP", bgv.ParametersLiteral{LogN: 9, LogQ: []int{45, 40, 40, 40}, LogP: []int{45, 45}, PlaintextModulus: 97}, func(p rlwe.Parameters) []rlwe.EvaluationKeyParameters {
+		return []rlwe.EvaluationKeyParameters{{LevelP: ip(0)}}
+	}},
+	{"two-P-lower-levelQ-levelP", bgv.ParametersLiteral{LogN: 9, LogQ: []int{45, 40, 40, 40}, LogP: []int{45, 45}, PlaintextModulus: 97}, func(p rlwe.Parameters) []rlwe.EvaluationKeyParameters {
+		return []rlwe.EvaluationKeyParameters{{LevelQ: ip(2), LevelP: ip(0)}}
+	}},
 	{"base2-equal-digits", bgv.ParametersLiteral{LogN: 9, LogQ: []int{48, 36, 36}, LogP: []int{50}, PlaintextModulus: 97}, func(p rlwe.Parameters) []rlwe.EvaluationKeyParameters {
 		return []rlwe.EvaluationKeyParameters{{BaseTwoDecomposition: ip(12)}}
 	}},
